@@ -125,6 +125,18 @@ func (n *knNameUnmarshalOnly) UnmarshalJSON(b []byte) error {
 
 type knNamedUnmarshalOnly struct{ V knNameUnmarshalOnly }
 
+// stateOf extracts the "state" member of a component checkpoint (the envelope
+// with the spec hash is noise in a one-line message).
+func stateOf(checkpoint []byte) string {
+	var env struct {
+		State json.RawMessage `json:"state"`
+	}
+	if json.Unmarshal(checkpoint, &env) != nil || env.State == nil {
+		return string(bytes.TrimSpace(checkpoint))
+	}
+	return string(env.State)
+}
+
 func c43Known[T any](t *testing.T, sub, sig string, v T, what string) {
 	s := kit.Begin(t, "C43", sub, "deterministic: "+what+"; Builder.Build must accept the type, then Component.SaveCheckpoint -> LoadCheckpoint into a second built component; same oracle as the generated sub-checks")
 	defer s.End()
@@ -159,7 +171,7 @@ func c43Known[T any](t *testing.T, sub, sig string, v T, what string) {
 			return
 		}
 		s.Note(sub, true, "reproduces")
-		s.KnownStillFails(t, sub, sig, fmt.Sprintf("Build accepts %T; State %+v -> checkpoint %s -> LoadCheckpoint error: %v", v, v, bytes.TrimSpace(saved), err))
+		s.KnownStillFails(t, sub, sig, fmt.Sprintf("Build accepts %s; %+v -> state %s -> LoadCheckpoint: %v", what, v, stateOf(saved), err))
 		return
 	}
 	if d := diffTop(v, c2.State, nil); d != nil {
@@ -169,14 +181,14 @@ func c43Known[T any](t *testing.T, sub, sig string, v T, what string) {
 			return
 		}
 		s.Note(sub, true, "reproduces")
-		s.KnownStillFails(t, sub, sig, fmt.Sprintf("Build accepts %T; State %+v -> checkpoint %s -> %+v (differs at %s: %s)", v, v, bytes.TrimSpace(saved), c2.State, d.Path, d.Detail))
+		s.KnownStillFails(t, sub, sig, fmt.Sprintf("Build accepts %s; %+v -> state %s -> %+v (%s: %s)", what, v, stateOf(saved), c2.State, d.Path, d.Detail))
 		return
 	}
 	s.Note(sub, true, "holds:round-trips")
 }
 
 func TestC43Known_MixedExportedUnexported(t *testing.T) {
-	c43Known(t, "known-mixed", "mixed-exported-unexported-accepted", knMixed{A: 1, b: 2}, "State struct{A int; b int} = {1,2}")
+	c43Known(t, "known-mixed", "mixed-exported-unexported-accepted", knMixed{A: 1, b: 2}, "State struct{A int; b int}")
 }
 
 // The same hole for a Spec: two components whose Specs differ only in the
@@ -216,39 +228,39 @@ func TestC43Known_MixedSpecHash(t *testing.T) {
 }
 
 func TestC43Known_DuplicateJSONName(t *testing.T) {
-	c43Known(t, "known-dup-json-name", "json-name-conflict-accepted", knDupTag{A: 1, B: 2}, "State struct{A int `json:\"x\"`; B int `json:\"x\"`} = {1,2}")
+	c43Known(t, "known-dup-json-name", "json-name-conflict-accepted", knDupTag{A: 1, B: 2}, "State struct{A int `json:\"x\"`; B int `json:\"x\"`}")
 }
 
 func TestC43Known_EmbeddedShadowedField(t *testing.T) {
-	c43Known(t, "known-embedded-shadow", "json-name-conflict-accepted", knShadow{KnBase: KnBase{A: 1}, A: 2}, "State struct{KnBase; A int} with KnBase{A int} = {{1},2}")
+	c43Known(t, "known-embedded-shadow", "json-name-conflict-accepted", knShadow{KnBase: KnBase{A: 1}, A: 2}, "State struct{KnBase; A int}, KnBase{A int}")
 }
 
 func TestC43Known_EmbeddedMarshalerPromoted(t *testing.T) {
-	c43Known(t, "known-embedded-promoted", "embedded-custom-json-promoted-accepted", knPromoted{knPair: knPair{v: 1}, N: 2}, "State struct{knPair; N int} where knPair has a correct MarshalJSON/UnmarshalJSON pair = {{1},2}")
+	c43Known(t, "known-embedded-promoted", "embedded-custom-json-promoted-accepted", knPromoted{knPair: knPair{v: 1}, N: 2}, "State struct{knPair; N int}, knPair has a Marshal/UnmarshalJSON pair")
 }
 
 func TestC43Known_PointerReceiverMarshalJSON(t *testing.T) {
-	c43Known(t, "known-ptr-receiver", "ptr-receiver-marshaljson-accepted", knPtrRecv{A: 1}, "State struct{A int} with pointer-receiver MarshalJSON + UnmarshalJSON (own format {\"payload\":A}) = {1}")
+	c43Known(t, "known-ptr-receiver", "ptr-receiver-marshaljson-accepted", knPtrRecv{A: 1}, "State struct{A int} with (*T).MarshalJSON+UnmarshalJSON")
 }
 
 func TestC43Known_UnmarshalJSONOnly(t *testing.T) {
-	c43Known(t, "known-unmarshal-only", "unmarshaljson-without-marshaljson-accepted", knUnmarshalOnly{A: 1}, "State struct{A int} with UnmarshalJSON only (expects {\"payload\":A}) = {1}")
+	c43Known(t, "known-unmarshal-only", "unmarshaljson-without-marshaljson-accepted", knUnmarshalOnly{A: 1}, "State struct{A int} with UnmarshalJSON only")
 }
 
 func TestC43Known_LossyCustomPair(t *testing.T) {
-	c43Known(t, "known-lossy-pair", "custom-json-pair-loses-data", knLossyPair{A: 1, B: 2}, "State struct{A,B int} with a MarshalJSON/UnmarshalJSON pair that forgets B = {1,2}")
+	c43Known(t, "known-lossy-pair", "custom-json-pair-loses-data", knLossyPair{A: 1, B: 2}, "State struct{A,B int} whose Marshal/UnmarshalJSON pair forgets B")
 }
 
 func TestC43Known_NamedIntMarshalOnly(t *testing.T) {
-	c43Known(t, "known-named-marshal-only", "accepted-roundtrip-error:named-nonstruct-marshaljson-without-unmarshaljson", knNamedMarshalOnly{V: 3}, "State struct{V Level}, type Level int with MarshalJSON only = {3}")
+	c43Known(t, "known-named-marshal-only", "accepted-roundtrip-error:named-nonstruct-marshaljson-without-unmarshaljson", knNamedMarshalOnly{V: 3}, "State struct{V Level}, Level int with MarshalJSON only")
 }
 
 func TestC43Known_NamedIntPointerReceiver(t *testing.T) {
-	c43Known(t, "known-named-ptr-receiver", "accepted-roundtrip-error:named-nonstruct-ptr-receiver-marshaljson", knNamedPtr{V: 3}, "State struct{V Level}, type Level int with pointer-receiver MarshalJSON/UnmarshalJSON = {3}")
+	c43Known(t, "known-named-ptr-receiver", "accepted-roundtrip-error:named-nonstruct-ptr-receiver-marshaljson", knNamedPtr{V: 3}, "State struct{V Level}, Level int with (*Level).MarshalJSON+UnmarshalJSON")
 }
 
 func TestC43Known_NamedStringUnmarshalOnly(t *testing.T) {
-	c43Known(t, "known-named-unmarshal-only", "accepted-roundtrip-error:named-nonstruct-unmarshaljson-without-marshaljson", knNamedUnmarshalOnly{V: "n"}, "State struct{V Name}, type Name string with UnmarshalJSON only = {\"n\"}")
+	c43Known(t, "known-named-unmarshal-only", "accepted-roundtrip-error:named-nonstruct-unmarshaljson-without-marshaljson", knNamedUnmarshalOnly{V: "n"}, "State struct{V Name}, Name string with UnmarshalJSON only")
 }
 
 // ------------------------------------------------------------ the library's own Spec / State types
@@ -313,6 +325,14 @@ func TestC43LibraryTypes(t *testing.T) {
 		return out
 	}())
 
+	rejectedLib := map[string]string{}
+	defer func() {
+		s.Extra("library_types_rejected_by_validator", rejectedLib)
+		for n, e := range rejectedLib {
+			t.Logf("WARNING: the validator refuses library type %s: %s", n, e)
+		}
+	}()
+
 	run := func(f kit.Failer, c c43LibCase) {
 		var T reflect.Type
 		var verr error
@@ -330,7 +350,11 @@ func TestC43LibraryTypes(t *testing.T) {
 			verr = modeling.ValidateState(reflect.Zero(T).Interface())
 		}
 		if verr != nil {
-			// not a C43 violation (refusing is always safe) but nothing to check either
+			// Not a C43 violation (refusing is always safe) and nothing to
+			// round-trip - but a validator that refuses a type the library
+			// itself builds breaks that component, so say it loudly (this is
+			// what a too-strict fix of validate.go would trip).
+			rejectedLib[c.Name] = verr.Error()
 			s.Note(c, false, "rejected:"+c.Name)
 			return
 		}
@@ -359,7 +383,7 @@ func TestC43LibraryTypes(t *testing.T) {
 	} else if kit.ReplayMode() {
 		t.Skip()
 	}
-	kit.SetChecks(3_000, 15_000)
+	kit.SetChecks(10_000, 50_000)
 	rapid.Check(t, func(rt *rapid.T) {
 		c := c43LibCase{Kind: rapid.SampledFrom([]string{"spec", "state", "state"}).Draw(rt, "kind")}
 		var T reflect.Type
